@@ -431,6 +431,52 @@ pub fn run(ctx: &RunCtx) -> i32 {
         f(&mut r);
         shared.merge(r);
     });
+    // deep messages (menu::deep_msgs): large offsets / indices, repeats, rotations, quads
+    {
+        let deep = menu::deep_msgs(thorough);
+        let n = deep.len();
+        deep.par_chunks(64).for_each(|ch| {
+            let mut r = Report::new();
+            for lm in ch {
+                diff(lm, None, &mut r);
+                let mut with_tail = lm.clone();
+                with_tail.attrs.extend_from_slice(menu::TAILS[7]);
+                diff(&with_tail, Some(&keyed), &mut r);
+            }
+            shared.merge(r);
+        });
+        let mut r = Report::new();
+        r.sym_n("deep-messages", 2 * n as u64);
+        shared.merge(r);
+    }
+    // offset family (menu::offset_msgs): a subject attribute behind a filler at every body offset of menu::offset_points,
+    // including message offsets beyond 65,535; and XOR-* addresses whose wire form is a special address
+    {
+        let xs = vec![vec![L::Priority(1)], vec![L::Software("ab".into()), L::XorMappedAddress(menu::addrs(true)[1].clone())]];
+        let tails = vec![vec![], vec![L::Mi, L::Sha, L::Fp]];
+        let msgs = menu::offset_msgs(thorough, &xs, &tails, [0x71; 12]);
+        let n = msgs.len();
+        msgs.par_chunks(32).for_each(|ch| {
+            let mut r = Report::new();
+            for lm in ch {
+                let k = if lm.attrs.iter().any(|a| matches!(a, L::Mi | L::Sha)) { Some(&keyed) } else { None };
+                diff(lm, k, &mut r);
+            }
+            shared.merge(r);
+        });
+        let mut r = Report::new();
+        r.sym_n("offset-family", n as u64);
+        for tid in [menu::RFC5769_TID, [0u8; 12], [0xFF; 12]] {
+            for a in menu::xor_special_addrs(&tid) {
+                for l in [L::XorMappedAddress(a.clone()), L::XorPeerAddress(a.clone()), L::XorRelayedAddress(a.clone()), L::MappedAddress(a.clone())] {
+                    diff(&menu::lmsg(1, 2, tid, vec![l.clone()]), None, &mut r);
+                    diff(&menu::lmsg(1, 2, tid, vec![l, L::Priority(9)]), None, &mut r);
+                }
+            }
+        }
+        r.sym("xor-special-addresses");
+        shared.merge(r);
+    }
     // ignorable bits, every attribute instance of the full menu
     full.par_iter().for_each(|l| {
         let mut r = Report::new();
@@ -461,12 +507,12 @@ pub fn run(ctx: &RunCtx) -> i32 {
         rep,
         Finish {
             level: "exploration",
-            rule: format!("library bytes compared with the independent reference writer for every message with 0..=2 body attributes over the {}-entry menu x 8 tails (thorough: triples with the full tail), all 16384 message types both directions, XOR attributes under 123 transaction ids, 400 error codes, u16 / ICMP / string-length sweeps, the non-last-attribute sweeps (every blob / string length, walking address bytes, single-bit integers, list lengths 0..=8), RFC 5769 vectors (both parsers, re-encoded with the vector's padding byte); every ignorable byte of every menu attribute set to 5 patterns, every ignorable bit alone, all together, all 2^k subsets when k<=10. Non-trivial = bytes equal / perturbed message decodes to the canonical value (by public accessors and by the value types' own equality)", n),
+            rule: format!("library bytes compared with the independent reference writer for every message with 0..=2 body attributes over the {}-entry menu x 8 tails (thorough: triples with the full tail), all 16384 message types both directions, XOR attributes under 123 transaction ids, 400 error codes, u16 / ICMP / string-length sweeps, the non-last-attribute sweeps (every blob / string length, walking address bytes, single-bit integers, list lengths 0..=8), deep messages (as C01: offsets around 256..4096 / 32768, long runs, repeats, rotations of every kind, quads) without and with the full tail, the offset family of C01 (every 4-aligned body offset 0..=4200 / 16,400, around multiples of 4096 / 1024, every offset 65,300..=65,532) and XOR-* addresses with special wire forms, RFC 5769 vectors (both parsers, re-encoded with the vector's padding byte); every ignorable byte of every menu attribute set to 5 patterns, every ignorable bit alone, all together, all 2^k subsets when k<=10. Non-trivial = bytes equal / perturbed message decodes to the canonical value (by public accessors and by the value types' own equality)", n),
             assumptions: vec![
                 "R-codec follows the library for two RFC ambiguities: the last PASSWORD-ALGORITHMS entry is padded by the attribute padding, RESPONSE-PORT has length 2".into(),
                 "reference codec written from the RFCs by the harness author; checked against RFC 5769 vectors at start-up".into(),
             ],
-            required_symbols: vec!["sweep-message-types", "sweep-non-last-lengths-addresses-bits-lists", "sweep-xor-ids", "rfc5769-vectors", "perturbed-attributes", "full-subset-walks", "ErrorCode"],
+            required_symbols: vec!["deep-messages", "offset-family", "xor-special-addresses", "sweep-message-types", "sweep-non-last-lengths-addresses-bits-lists", "sweep-xor-ids", "rfc5769-vectors", "perturbed-attributes", "full-subset-walks", "ErrorCode"],
             min_outcomes: 2,
             exhaustive: true,
             bounds: json!({"L": if thorough {3} else {2}, "menu": n}),
